@@ -15,7 +15,7 @@ from sim import refmodel as R
 from sim.core import Violation, Precondition
 
 PROPS = ["C16"]
-BUDGET = {"C16": {"quick": {"runs": 6000, "wall_cap_s": 100}, "thorough": {"runs": 120000, "wall_cap_s": 1200}}}
+BUDGET = {"C16": {"quick": {"runs": 12000, "wall_cap_s": 150}, "thorough": {"runs": 200000, "wall_cap_s": 1800}}}
 RULE = {"C16": "one case = one seeded history of 2-40 linalg calls (matrix classes: doubly diagonally dominant, "
                "row-permuted dominant (needs row swaps), spline collocation, small general integer/dyadic with "
                "non-vanishing pivots, static-pivot breakdown) with seeded memo evictions and rejected inputs, executed in "
